@@ -8,6 +8,7 @@ import (
 	"time"
 
 	"verif/mc"
+	"verif/smallscope"
 )
 
 func main() {
@@ -16,6 +17,14 @@ func main() {
 		os.Exit(2)
 	}
 	switch os.Args[1] {
+	case "small":
+		fs := flag.NewFlagSet("small", flag.ExitOnError)
+		prop := fs.String("prop", "", "property id")
+		tier := fs.String("tier", "quick", "quick|thorough")
+		fs.Parse(os.Args[2:])
+		var seed int64
+		fmt.Sscan(os.Getenv("VERIF_SEED"), &seed)
+		os.Exit(smallscope.Main(*prop, *tier, "/verif", seed))
 	case "worker":
 		mc.WorkerMain()
 		return
